@@ -284,3 +284,240 @@ M.contract(P_COMBI + ':_SequenceOfOperandsAdv.primitive',
                image_in_order(result._operands, self._operands),
                'model-freezer-passed-on': lambda self, result: result._model_freezer is self._model_freezer,
            }, raises_only=())
+
+# ============================================================================== (a) grammar tables
+# The operator tokens, their precedence order and what they build are read from the REAL grammar
+# objects of the six host types (the objects the parsers are made from) and compared with the
+# documented table of the property statement, which is written out here (not read from the code):
+
+OR, AND, NOT, SEQUENCE = '||', '&&', '!', '|'
+
+from exactly_lib.impls.types.expression import grammar as expression_grammar
+from exactly_lib.util.name_and_value import NameAndValue
+
+P_GRAMMAR = 'exactly_lib.impls.types.expression.grammar'
+
+
+def _nav(name):
+    return Inst(NameAndValue, _tuple=[Const(name), Any_])
+
+
+def _levels_shapes():
+    """0..3 precedence levels of 1..2 operators each, distinct concrete names, arbitrary values"""
+    shapes = []
+    for n_levels in range(4):
+        per_level = [[]]
+        for lv in range(n_levels):
+            per_level = [p + [w] for p in per_level for w in (1, 2)]
+        for widths in per_level:
+            shapes.append(FixedList(*[FixedList(*[_nav('op%d%s' % (lv, 'ab'[k])) for k in range(w)], as_tuple=True)
+                                      for lv, w in enumerate(widths)], as_tuple=True))
+    return Union(*shapes)
+
+
+def _navs_shapes(prefix, max_len):
+    return Union(*[FixedList(*[_nav('%s%d' % (prefix, k)) for k in range(n)], as_tuple=True)
+                   for n in range(max_len + 1)])
+
+
+def dict_in_order(d, navs):
+    """d maps exactly the names of navs, in their order, to their values"""
+    return list(d.keys()) == [nav.name for nav in navs] and all([d[nav.name] is nav.value for nav in navs])
+
+
+M.contract(P_GRAMMAR + ':Grammar.__init__',
+           params=dict(self=Inst(expression_grammar.Grammar), concept=Any_, mk_reference=Any_,
+                       primitives=_navs_shapes('prim', 3), prefix_operators=_navs_shapes('pre', 2),
+                       infix_operators_in_order_of_increasing_precedence=_levels_shapes(),
+                       description=Any_, custom_reserved_words=Any_),
+           ensures={
+               'the given sequences are kept as given': lambda self, primitives, prefix_operators,
+                                                               infix_operators_in_order_of_increasing_precedence:
+               self.primitives__seq is primitives and self.prefix_operators__seq is prefix_operators
+               and self.infix_ops_inc_precedence__seq is infix_operators_in_order_of_increasing_precedence,
+               'one dict per precedence level, in the order given': lambda self,
+                                                                            infix_operators_in_order_of_increasing_precedence:
+               len(self.infix_ops_inc_precedence) == len(infix_operators_in_order_of_increasing_precedence)
+               and all([dict_in_order(self.infix_ops_inc_precedence[i],
+                                      infix_operators_in_order_of_increasing_precedence[i])
+                        for i in range(len(infix_operators_in_order_of_increasing_precedence))]),
+               'primitives and prefix operators by name': lambda self, primitives, prefix_operators:
+               dict_in_order(self.primitives, primitives) and dict_in_order(self.prefix_operators, prefix_operators),
+               'rest stored': lambda self, concept, mk_reference, custom_reserved_words:
+               self.concept is concept and self.mk_reference is mk_reference
+               and self.custom_reserved_words is custom_reserved_words,
+           }, raises_only=())
+
+
+def _finite(ctx, check, name, ok, detail=None, backend='enumeration'):
+    """A finite obligation on the real objects; `ok` may be a thunk (an exception in it refutes).  The
+    replay re-evaluates the same check natively under the repository's interpreter."""
+    detail = {k: repr(v) for k, v in (detail or {}).items()}
+    if callable(ok):
+        try:
+            ok = ok()
+        except Exception as e:
+            detail['error'] = repr(e)
+            ok = False
+    ctx.obligation(name, bool(ok), backend, detail=detail,
+                   replay='from contracts import C06_expression as m\nsys.exit(m.replay_finite(%r, OBLIGATION))\n' % check)
+
+
+class _ReplayCtx:
+    tier = 'quick'
+
+    def __init__(self):
+        self.results = {}
+
+    def obligation(self, name, ok, backend, detail=None, replay=None, undecided=False):
+        self.results[name] = (ok, detail)
+
+
+def replay_finite(check, obligation):
+    """exit status for a replay script: 1 iff the named finite obligation fails natively"""
+    ctx = _ReplayCtx()
+    for name, fn in M.checks:
+        if name == check:
+            fn(ctx)
+    ok, detail = ctx.results.get(obligation, (True, 'obligation not generated'))
+    print(obligation, '->', 'holds' if ok else 'FAILS', detail)
+    return 0 if ok else 1
+
+
+class _Marker:
+    """operand stand-in for calling the real mk_expression functions"""
+    references = ()
+
+    def __init__(self, name):
+        self.name = name
+
+    def __repr__(self):
+        return '<operand %s>' % self.name
+
+
+def _grammar_modules():
+    from exactly_lib.impls.types.integer_matcher import parse_integer_matcher
+    from exactly_lib.impls.types.line_matcher import parse_line_matcher
+    from exactly_lib.impls.types.string_matcher import parse_string_matcher
+    from exactly_lib.impls.types.file_matcher import parse_file_matcher
+    from exactly_lib.impls.types.files_matcher import parse_files_matcher
+    from exactly_lib.impls.types.string_transformer import parse_string_transformer
+    matchers = {'integer-matcher': parse_integer_matcher, 'line-matcher': parse_line_matcher,
+                'string-matcher': parse_string_matcher, 'file-matcher': parse_file_matcher,
+                'files-matcher': parse_files_matcher}
+    return matchers, {'string-transformer': parse_string_transformer}
+
+
+@M.check('grammar-tables')
+def _grammar_tables(ctx):
+    """Finite obligations on the real GRAMMAR constants (read from the imported current tree)."""
+    from exactly_lib.impls.types.string_transformer.impl import sequence_sdv
+    matchers, transformers = _grammar_modules()
+
+    def ob(host, what, ok, **detail):
+        _finite(ctx, 'grammar-tables', '%s: %s' % (host, what), ok, detail)
+
+    def common(host, mod, g, levels, prefix):
+        ob(host, 'infix operators in order of increasing precedence are %r' % (levels,),
+           lambda: [list(d.keys()) for d in g.infix_ops_inc_precedence] == levels
+           and [[nav.name for nav in level] for level in g.infix_ops_inc_precedence__seq] == levels,
+           derived=g.infix_ops_inc_precedence, seq=g.infix_ops_inc_precedence__seq)
+        ob(host, 'per-level dicts hold the operator objects of the given sequence',
+           lambda: all(d[nav.name] is nav.value for d, level in zip(g.infix_ops_inc_precedence,
+                                                                    g.infix_ops_inc_precedence__seq)
+                       for nav in level))
+        ob(host, 'prefix operators are %r' % (prefix,),
+           lambda: list(g.prefix_operators.keys()) == prefix
+           and [nav.name for nav in g.prefix_operators__seq] == prefix
+           and all(g.prefix_operators[nav.name] is nav.value for nav in g.prefix_operators__seq),
+           derived=g.prefix_operators)
+        ob(host, 'every primitive name maps to its own parser (no name twice)',
+           lambda: len({nav.name for nav in g.primitives__seq}) == len(g.primitives__seq)
+           and list(g.primitives.keys()) == [nav.name for nav in g.primitives__seq]
+           and all(g.primitives[nav.name] is nav.value for nav in g.primitives__seq))
+        ob(host, 'no primitive is named like an operator or a parenthesis',
+           lambda: not ({nav.name for nav in g.primitives__seq} | set(g.primitives))
+                       & {OR, AND, NOT, SEQUENCE, '(', ')'})
+        for b in (False, True):
+            def inner(b=b):
+                ps = mod.parsers(b)
+                return [p._with_non_empty_current_line if b else p for p in (ps.simple, ps.full)]
+
+            ob(host, 'parsers(%s) are the simple and the full parser of this grammar' % b,
+               lambda: type(inner()[0]).__name__ == '_SimpleParserOnAnyLineParser' and inner()[0]._grammar is g
+               and type(inner()[1]).__name__ == '_FullParserOnAnyLineParser' and inner()[1]._grammar is g)
+
+    def same(xs, ys):
+        return len(xs) == len(ys) and all(x is y for x, y in zip(xs, ys))
+
+    for host, mod in matchers.items():
+        g = mod.GRAMMAR
+        common(host, mod, g, [[OR], [AND]], [NOT])
+        ms = [_Marker('a'), _Marker('b'), _Marker('c')]
+
+        def build(name, g=g, ms=ms):
+            if name == NOT:
+                return g.prefix_operators[NOT].mk_expression(ms[0])
+            level = [d for d in g.infix_ops_inc_precedence if name in d][0]
+            return level[name].mk_expression(list(ms))
+
+        ob(host, '|| builds a Disjunction of the operands in the order given',
+           lambda: type(build(OR)) is combinator_sdvs.Disjunction and same(build(OR)._operands, ms))
+        ob(host, '&& builds a Conjunction of the operands in the order given',
+           lambda: type(build(AND)) is combinator_sdvs.Conjunction and same(build(AND)._operands, ms))
+        ob(host, '! builds the Negation of its operand',
+           lambda: type(build(NOT)) is combinator_sdvs.Negation and build(NOT)._operand is ms[0])
+        ob(host, '|| and && use the same model freezer',
+           lambda: build(OR)._model_freezer is build(AND)._model_freezer)
+    for host, mod in transformers.items():
+        g = mod.GRAMMAR
+        common(host, mod, g, [[SEQUENCE]], [])
+        ms = [_Marker('a'), _Marker('b'), _Marker('c')]
+        ob(host, '| builds a sequence of the operands in the order given',
+           lambda: type(g.infix_ops_inc_precedence[0][SEQUENCE].mk_expression(list(ms)))
+           is sequence_sdv.StringTransformerSequenceSdv
+           and same(g.infix_ops_inc_precedence[0][SEQUENCE].mk_expression(list(ms)).transformers, ms))
+
+
+@M.check('grammar-users')
+def _grammar_users(ctx):
+    """Syntactic frame: which modules of the current tree construct an expression grammar."""
+    import ast
+    import os
+    import exactly_lib
+    root = os.path.dirname(exactly_lib.__file__)
+    users = set()
+    for dp, dns, fns in os.walk(root):
+        for fn in fns:
+            if not fn.endswith('.py'):
+                continue
+            path = os.path.join(dp, fn)
+            rel = os.path.relpath(path, root)
+            if rel == os.path.join('impls', 'types', 'expression', 'grammar.py'):
+                continue
+            try:
+                tree = ast.parse(open(path, encoding='utf-8').read())
+            except SyntaxError:
+                continue
+            for n in ast.walk(tree):
+                if isinstance(n, ast.Call):
+                    f = n.func
+                    name = f.attr if isinstance(f, ast.Attribute) else (f.id if isinstance(f, ast.Name) else None)
+                    if name in ('Grammar', 'new_grammar'):
+                        users.add(rel)
+    t = os.path.join('impls', 'types')
+    with_operators = {os.path.join(t, d, f) for d, f in (
+        ('integer_matcher', 'parse_integer_matcher.py'), ('line_matcher', 'parse_line_matcher.py'),
+        ('string_matcher', 'parse_string_matcher.py'), ('file_matcher', 'parse_file_matcher.py'),
+        ('files_matcher', 'parse_files_matcher.py'), ('string_transformer', 'parse_string_transformer.py'))}
+    plumbing = {os.path.join(t, 'matcher', 'standard_expression_grammar.py')}
+    without_operators = {os.path.join(t, 'files_condition', 'parse.py'), os.path.join(t, 'files_source', 'parse.py')}
+    _finite(ctx, 'grammar-users', 'the grammars of the program are those of the six host types (+ two without operators)',
+            users == with_operators | plumbing | without_operators, {'users': sorted(users)}, backend='scan')
+    from exactly_lib.impls.types.files_condition import parse as fc_parse
+    from exactly_lib.impls.types.files_source import parse as fs_parse
+    # (files-source: the parser of nested expressions is only stored by _grammar)
+    for host, mk in (('files-condition', lambda: fc_parse.GRAMMAR), ('files-source', lambda: fs_parse._grammar(None))):
+        _finite(ctx, 'grammar-users', '%s: grammar has no operators' % host,
+                lambda: list(mk().infix_ops_inc_precedence) == [] and list(mk().infix_ops_inc_precedence__seq) == []
+                and dict(mk().prefix_operators) == {})
